@@ -75,6 +75,7 @@ func c01f0(env *core.Env, kind string) {
 		MaxBlob:    300,
 		Weights:    w,
 		BadPush:    true,
+		Motifs:     true,
 		AltAlgo:    true,
 		Uploads:    true,
 		SmallReads: true,
